@@ -73,15 +73,38 @@ func c04ReadTable(pkg *packages.Package, name string) (*c04Bounds, string) {
 	if !ok {
 		return nil, name + " is not initialised by a composite literal"
 	}
+	b := &c04Bounds{Name: name, Pos: pos, Fields: map[string]uint64{}}
+	if why := c04ReadStructLit(pkg, cl, "", b, name); why != "" {
+		return nil, why
+	}
+	return b, ""
+}
+
+// c04StructLeaves lists the scalar / map leaves of a struct type, nested (and
+// embedded) struct fields flattened into dotted paths.
+func c04StructLeaves(st *types.Struct, prefix string, depth int, f func(path string, t types.Type)) {
+	for i := 0; i < st.NumFields(); i++ {
+		fld := st.Field(i)
+		if inner, ok := fld.Type().Underlying().(*types.Struct); ok && depth < 4 {
+			c04StructLeaves(inner, prefix+fld.Name()+".", depth+1, f)
+			continue
+		}
+		f(prefix+fld.Name(), fld.Type())
+	}
+}
+
+// c04ReadStructLit reads a (possibly nested) struct literal into b.
+func c04ReadStructLit(pkg *packages.Package, cl *ast.CompositeLit, prefix string, b *c04Bounds, name string) string {
 	st, ok := pkg.TypesInfo.TypeOf(cl).Underlying().(*types.Struct)
 	if !ok {
-		return nil, name + " is not a struct literal"
+		return name + " is not a struct literal"
 	}
-	b := &c04Bounds{Name: name, Pos: pos, Fields: map[string]uint64{}}
-	for i := 0; i < st.NumFields(); i++ {
-		if _, isMap := st.Field(i).Type().Underlying().(*types.Map); !isMap {
-			b.Fields[st.Field(i).Name()] = 0 // omitted fields are zero
-		}
+	if prefix == "" {
+		c04StructLeaves(st, "", 0, func(path string, t types.Type) {
+			if _, isMap := t.Underlying().(*types.Map); !isMap {
+				b.Fields[path] = 0 // omitted fields are zero
+			}
+		})
 	}
 	for i, el := range cl.Elts {
 		var fld *types.Var
@@ -99,7 +122,18 @@ func c04ReadTable(pkg *packages.Package, name string) (*c04Bounds, string) {
 			fld = st.Field(i)
 		}
 		if fld == nil {
-			return nil, name + " has an element that is not a field of its type"
+			return name + " has an element that is not a field of its type"
+		}
+		path := prefix + fld.Name()
+		if _, isStruct := fld.Type().Underlying().(*types.Struct); isStruct {
+			inner, ok := ast.Unparen(val).(*ast.CompositeLit)
+			if !ok {
+				return name + "." + path + " is not a struct literal"
+			}
+			if why := c04ReadStructLit(pkg, inner, path+".", b, name); why != "" {
+				return why
+			}
+			continue
 		}
 		if _, isMap := fld.Type().Underlying().(*types.Map); isMap {
 			if id, ok := ast.Unparen(val).(*ast.Ident); ok && id.Name == "nil" {
@@ -107,18 +141,18 @@ func c04ReadTable(pkg *packages.Package, name string) (*c04Bounds, string) {
 			}
 			ml, ok := ast.Unparen(val).(*ast.CompositeLit)
 			if !ok {
-				return nil, name + "." + fld.Name() + " is neither nil nor a map literal"
+				return name + "." + path + " is neither nil nor a map literal"
 			}
 			b.Names = map[string]uint64{}
 			for _, e := range ml.Elts {
 				kv, ok := e.(*ast.KeyValueExpr)
 				if !ok {
-					return nil, name + "." + fld.Name() + " has a non key/value element"
+					return name + "." + path + " has a non key/value element"
 				}
 				k, ok1 := c04ConstString(pkg, kv.Key)
 				v, ok2 := c04ConstUint(pkg, kv.Value)
 				if !ok1 || !ok2 {
-					return nil, name + "." + fld.Name() + " has a non-constant entry"
+					return name + "." + path + " has a non-constant entry"
 				}
 				b.Names[k] = v
 			}
@@ -126,11 +160,11 @@ func c04ReadTable(pkg *packages.Package, name string) (*c04Bounds, string) {
 		}
 		v, ok := c04ConstUint(pkg, val)
 		if !ok {
-			return nil, name + "." + fld.Name() + " is not a constant"
+			return name + "." + path + " is not a constant"
 		}
-		b.Fields[fld.Name()] = v
+		b.Fields[path] = v
 	}
-	return b, ""
+	return ""
 }
 
 // c04ReadList evaluates `var <name> = []T{...}`: constant names (for
